@@ -114,6 +114,25 @@ theorem refNe_negates (fuel : Nat) (σ : State) (loc : Loc) (a b : Val) :
   · intro v h; simp [applyBinOp, h]
   · intro h; simp [applyBinOp, h]
 
+/-- the answer of a comparison is an ordinary boolean: compared with `true` it is itself, compared with `false` its
+    negation — `(a == b) == true`, `(a == b) != false` and `(a != b) == false` ask what `a == b` asks -/
+theorem answer_compared_again (fuel : Nat) (σ : State) (loc : Loc) (v : Bool) :
+    applyBinOp (fuel + 1) σ .Eq loc (.bool v) (.bool true) = .ok (.bool v) σ ∧
+    applyBinOp (fuel + 1) σ .Eq loc (.bool v) (.bool false) = .ok (.bool (!v)) σ ∧
+    applyBinOp (fuel + 1) σ .Ne loc (.bool v) (.bool false) = .ok (.bool v) σ ∧
+    applyBinOp (fuel + 1) σ .Eq loc (.bool true) (.bool v) = .ok (.bool v) σ := by
+  cases v <;> simp [applyBinOp, eqVal]
+
+/-- a comparison between the kinds `null`, `bool`, `int`, `string`, `list`, `object` never answers a boolean when the two
+    kinds differ at the top: not for an empty list against an empty object or string, not for `null` against anything else -/
+theorem top_kind_mismatch_is_error (fuel : Nat) (σ : State) (loc : Loc) (x : Addr) :
+    (∀ bs, ∃ e, applyBinOp (fuel + 1) σ .Eq loc (.str bs) (.list x) = .err e σ) ∧
+    (∀ y, ∃ e, applyBinOp (fuel + 1) σ .Eq loc (.obj y) (.list x) = .err e σ) ∧
+    (∃ e, applyBinOp (fuel + 1) σ .Eq loc .null (.list x) = .err e σ) ∧
+    (∀ i, ∃ e, applyBinOp (fuel + 1) σ .Eq loc (.int i) (.list x) = .err e σ) ∧
+    (∀ b, ∃ e, applyBinOp (fuel + 1) σ .Eq loc (.bool b) (.list x) = .err e σ) := by
+  refine ⟨fun bs => ?_, fun y => ?_, ?_, fun i => ?_, fun b => ?_⟩ <;> simp [applyBinOp, eqVal]
+
 /-! ## comparing never mutates -/
 
 /-- **C10.** the four comparison operators hand back the state they were given, on every outcome that has a state -/
